@@ -179,9 +179,36 @@ def jumpOK (j : List (Dy × Nat)) (p : Nat) : Bool :=
       (Dy.add (Dy.mul ⟨2,0⟩ (dyPow g1 (p - 1))) (dyPow g2 (p - 1))).small 40
   | _ => false
 
-/-- **triple_jump_condition**: at every level of the recursion the fractions the code computes cancel the leading error
-term of the symmetric lower-order scheme (orders 4, 6, 8). -/
-theorem triple_jump_condition : (jumpOK jump4 4 && jumpOK jump6 6 && jumpOK jump8 8) = true := by decide +kernel
+/-- Yoshida residual `|2 g^m + g'^m| ≤ 2^-40` of a jump for the exponent `m` -/
+def yoshida (j : List (Dy × Nat)) (m : Nat) : Bool :=
+  match j with
+  | [(g1, _), (g2, _), (_, _)] => (Dy.add (Dy.mul ⟨2,0⟩ (dyPow g1 m)) (dyPow g2 m)).small 40
+  | _ => false
+/-- structure of a jump: three calls (g, g', g) of the scheme of order `p−2` with `g + g' + g = 1` -/
+def jumpShape (j : List (Dy × Nat)) (p : Nat) : Bool :=
+  match j with
+  | [(g1, l1), (g2, l2), (g3, l3)] =>
+      Dy.eqv g1 g3 && (l1 == p - 2) && (l2 == p - 2) && (l3 == p - 2) &&
+      (Dy.sub (Dy.add (Dy.add g1 g2) g3) Dy.one).small 50
+  | _ => false
+
+/-- the recursion has the triple-jump shape at every level (orders 4, 6, 8) -/
+theorem triple_jump_shape : (jumpShape jump4 4 && jumpShape jump6 6 && jumpShape jump8 8) = true := by decide +kernel
+
+/-- **triple_jump_condition — KNOWN FINDING (key `order:<p>`)**: raising a symmetric scheme of order `p−2` to order `p` needs the
+Yoshida condition with exponent `p−1` (`triple_jump_identity` below).  The fractions the current code computes
+(`γ = 1/(2 − 2^(1/(p+1)))`) satisfy it with exponent `p+1` instead — the right value for raising order `p` to `p+2` — and violate the
+required one at every level; the composed schemes of "order" 4, 6, 8 are therefore only second-order accurate (measured by the harness).
+The repair (`1/(order−1)`) cannot be committed because the pinned test `test_final_state_error` depends on the current values. -/
+theorem triple_jump_condition_violated_now :
+    (yoshida jump4 3 || yoshida jump6 5 || yoshida jump8 7) = false ∧
+    (yoshida jump4 5 && yoshida jump6 7 && yoshida jump8 9) = true := by
+  constructor <;> decide +kernel
+
+/-- `jumpOK` = shape + the required Yoshida condition: what a repaired tree must satisfy -/
+theorem jumpOK_iff (j : List (Dy × Nat)) (p : Nat) : jumpOK j p = (jumpShape j p && yoshida j (p - 1)) := by
+  unfold jumpOK jumpShape yoshida
+  split <;> simp_all
 
 /-- the flat words are the jumps applied to the lower-order words (the recursion really composes three copies) -/
 def scaleWord (g : Dy) (w : List (Nat × Dy)) : List (Nat × Dy) := w.map fun p => (p.1, Dy.mul g p.2)
